@@ -285,3 +285,92 @@ Proof.
   destruct (Nat.eqb (count_some adj) 6) eqn:E6; [left|right; reflexivity].
   exists adj. split; [reflexivity|apply Nat.eqb_eq; exact E6].
 Qed.
+
+(* ---------- every plane list: the complete list of outcomes ---------- *)
+
+Definition err_in (e : err) (l : list err) : Prop := In e l.
+
+Lemma walk_error_classes {A B} (look : nat -> nat -> option A) (visit : A -> res B) (e0 : err)
+      (first n : nat) (seen : list nat) (cur : nat) :
+  (forall a, (exists b, visit a = Ok b) \/ visit a = Err e0) ->
+  (exists l, walk look visit first n seen cur = Ok l) \/
+  walk look visit first n seen cur = Err ELoop \/ walk look visit first n seen cur = Err e0.
+Proof.
+  intros Hv. revert seen cur. induction n as [|m IH]; intros seen cur; [left; eexists; reflexivity|].
+  cbn [walk]. set (seen1 := if Nat.eqb (List.length seen) 6 then remove_nat first seen else seen).
+  destruct (find_next look seen1 cur (seq 0 6)) as [[i a]|]; [|right; left; reflexivity].
+  destruct (Hv a) as [(b & Eb)|Eb]; rewrite Eb; [|right; right; reflexivity].
+  destruct (IH (i :: seen1) i) as [(l & El)|[El|El]]; rewrite El.
+  - left. eexists. reflexivity.
+  - right. left. reflexivity.
+  - right. right. reflexivity.
+Qed.
+
+Lemma project_outcomes (pt dir : rvec) (p : rplane) :
+  (exists q, projectPointOnPlane RS pt p dir = Ok q) \/ projectPointOnPlane RS pt p dir = Err EZeroDiv.
+Proof.
+  destruct p as [pp n]. unfold projectPointOnPlane.
+  destruct (seqb RS (scal RS dir n) (s0 RS)); [right; reflexivity|left; eexists; reflexivity].
+Qed.
+
+(* hexVertices on six or eight planes: the vertices, or one of three exceptions *)
+Lemma vertices_outcomes (surfs : list rsurf) (first : nat) :
+  List.length surfs = 6%nat \/ List.length surfs = 8%nat -> (first < 6)%nat ->
+  (exists r, hexVertices RS surfs first = Ok r) \/
+  hexVertices RS surfs first = Err EZeroDiv \/ hexVertices RS surfs first = Err ELattice \/
+  hexVertices RS surfs first = Err ELoop.
+Proof.
+  intros Hlen Hf. unfold hexVertices. unfold rsurf in *.
+  assert (G1 : negb (Nat.eqb (List.length surfs) 6 || Nat.eqb (List.length surfs) 8) = false)
+    by (destruct Hlen as [L|L]; rewrite L; reflexivity).
+  rewrite G1. assert (G2 : negb (Nat.ltb first 6) = false) by (apply negb_false_iff; apply Nat.ltb_lt; exact Hf).
+  rewrite G2.
+  assert (L6 : List.length (firstn 6 surfs) = 6%nat) by (rewrite firstn_length; lia).
+  destruct (sort_sides_outcomes (firstn 6 surfs) L6) as [[_ E]|[_ [(adj & E & Hc)|E]]]; unfold rsurf in *; rewrite E.
+  - right. left. reflexivity.
+  - destruct (first_some_count adj ltac:(lia)) as ([pt0 d0] & Efs). rewrite Efs.
+    unfold hex_walk.
+    match goal with |- context [walk ?lk ?vis first 6 [first] first] =>
+      destruct (walk_error_classes lk vis EZeroDiv first 6 [first] first) as [(vs & Ev)|[Ev|Ev]];
+        [intros a; apply project_outcomes| | |]; rewrite Ev
+    end.
+    + left. eexists. reflexivity.
+    + right. right. right. reflexivity.
+    + right. left. reflexivity.
+  - right. right. left. reflexivity.
+Qed.
+
+(* hexLatticeBaseVectors on ANY plane list: base vectors (2 for six planes, 3
+   for eight), or AssertionError (exactly when there are neither six nor eight
+   planes), ZeroDivisionError, LatticeError, or the endless loop — nothing else
+   (no StopIteration, no IndexError) *)
+Theorem base_vectors_outcomes (surfs : list rsurf) :
+  (exists vs, hexLatticeBaseVectors RS surfs = Ok vs /\ List.length vs = (List.length surfs / 2 - 1)%nat) \/
+  (hexLatticeBaseVectors RS surfs = Err EAssert /\ List.length surfs <> 6%nat /\ List.length surfs <> 8%nat) \/
+  ((List.length surfs = 6%nat \/ List.length surfs = 8%nat) /\
+   (hexLatticeBaseVectors RS surfs = Err EZeroDiv \/ hexLatticeBaseVectors RS surfs = Err ELattice \/
+    hexLatticeBaseVectors RS surfs = Err ELoop)).
+Proof.
+  destruct (Nat.eq_dec (List.length surfs) 6) as [L6|N6].
+  - assert (Hlen : List.length surfs = 6%nat \/ List.length surfs = 8%nat) by (left; exact L6).
+    unfold hexLatticeBaseVectors.
+    destruct (vertices_outcomes surfs 0 Hlen ltac:(lia)) as [([v0 ax] & E0)|E0].
+    + rewrite E0. destruct (vertices_outcomes surfs 2 Hlen ltac:(lia)) as [([v2 ax2] & E2)|E2].
+      * rewrite E2. unfold rsurf in *. rewrite L6. cbn [Nat.eqb]. left. eexists. split; reflexivity.
+      * right. right. split; [first [exact Hlen | right; reflexivity | left; reflexivity]|]. destruct E2 as [E|[E|E]]; rewrite E; tauto.
+    + right. right. split; [first [exact Hlen | right; reflexivity | left; reflexivity]|]. destruct E0 as [E|[E|E]]; rewrite E; tauto.
+  - destruct (Nat.eq_dec (List.length surfs) 8) as [L8|N8].
+    + assert (Hlen : List.length surfs = 6%nat \/ List.length surfs = 8%nat) by (right; exact L8).
+      unfold hexLatticeBaseVectors.
+      destruct (vertices_outcomes surfs 0 Hlen ltac:(lia)) as [([v0 ax] & E0)|E0].
+      * rewrite E0. destruct (vertices_outcomes surfs 2 Hlen ltac:(lia)) as [([v2 ax2] & E2)|E2].
+        -- rewrite E2. unfold rsurf in *. rewrite L8. cbn [Nat.eqb Nat.sub].
+           destruct (project_outcomes (nth_vec RS v0 0) ax (fst (nth_surf RS surfs 7))) as [(q1 & P1)|P1]; rewrite P1.
+           ++ destruct (project_outcomes (nth_vec RS v0 0) ax (fst (nth_surf RS surfs 6))) as [(q2 & P2)|P2]; rewrite P2.
+              ** left. eexists. split; reflexivity.
+              ** right. right. split; [first [exact Hlen | right; reflexivity | left; reflexivity]|]. tauto.
+           ++ right. right. split; [first [exact Hlen | right; reflexivity | left; reflexivity]|]. tauto.
+        -- right. right. split; [first [exact Hlen | right; reflexivity | left; reflexivity]|]. destruct E2 as [E|[E|E]]; rewrite E; tauto.
+      * right. right. split; [first [exact Hlen | right; reflexivity | left; reflexivity]|]. destruct E0 as [E|[E|E]]; rewrite E; tauto.
+    + right. left. split; [apply base_vectors_wrong_count; assumption|split; assumption].
+Qed.
